@@ -37,6 +37,18 @@ func vC08Wire(msg ConsensusMessage, typ byte) []byte {
 	return wire.BinaryBytes(struct{ ConsensusMessage }{msg})
 }
 
+// the address field of a peer's vote: empty, garbage, or a real validator's address
+func vC08Addr() []byte {
+	switch k := vNondetLen("addrkind", 0, 3); k {
+	case 0:
+		return nil
+	case 1:
+		return []byte{vNondetByte("addr")}
+	default:
+		return vVals.Validators[k-2].Address
+	}
+}
+
 func vC08BlockID(tag string) types.BlockID {
 	switch vNondetLen(tag, 0, 2) {
 	case 1:
@@ -115,14 +127,14 @@ func VerifHarness_C08_vote_message() {
 	if !vNondetBool("nilvote") {
 		vote = &types.Vote{
 			ValidatorIndex:   vNondetInt("index"),
-			ValidatorAddress: vNondetBytes("addr", vNondetLen("addrlen", 0, 1)),
+			ValidatorAddress: vC08Addr(),
 			Height:           h.cs.Height + int64(vNondetLen("dheight", -1, 1)),
 			Round:            int64(vNondetRange("round", -1, 3)),
 			Type:             vNondetByte("type"),
 			BlockID:          vC08BlockID("bid"),
 		}
 		if !vNondetBool("nilsig") {
-			vote.Signature = vSig(vNondetBool("validsig"), 9)
+			vote.Signature = vSign(vote.ValidatorIndex, types.SignBytes(vChain, vote), vNondetBool("validsig"), 9)
 		}
 	}
 	vC08Deliver(h, conR, peer, VoteChannel, vC08Wire(&VoteMessage{vote}, msgTypeVote))
@@ -146,7 +158,7 @@ func VerifHarness_C08_proposal_message() {
 			POLBlockID:       vC08BlockID("polbid"),
 		}
 		if !vNondetBool("nilsig") {
-			prop.Signature = vSig(vNondetBool("validsig"), 9)
+			prop.Signature = vSign(0, types.SignBytes(vChain, prop), vNondetBool("validsig"), 9) // validator 0 is the proposer
 		}
 	}
 	before := vSnap(h.cs)
